@@ -4,43 +4,51 @@
 From VRP Require Import Base.Tac Model.Core Spec.Feasible Model.Eval Spec.Inv Model.Context
   Proofs.CoreTimeP Proofs.CoreCapP Proofs.CoreEvalP Proofs.CoreMultiP.
 
-Definition triangle (dur : Z -> Z -> Z) : Prop := forall a b c, dur a c <= dur a b + dur b c.
+(* the triangle inequality over a set L of locations (the locations of the problem) *)
+Definition triangle_on (L : Z -> Prop) (dur : Z -> Z -> Z) : Prop :=
+  forall a b c, L a -> L b -> L c -> dur a c <= dur a b + dur b c.
+Definition triangle (dur : Z -> Z -> Z) : Prop := triangle_on (fun _ => True) dur.
 
 Definition drop_job (j : Z) (t : list act) : list act := filter (fun a => negb (a_job a =? j)) t.
 
 (* ---------------- time ---------------- *)
 Section Time.
+Variable L : Z -> Prop.
 Variable dur : Z -> Z -> Z.
-Hypothesis Htri : triangle dur.
+Hypothesis Htri : triangle_on L dur.
 
 (* the walk over the shortened tour is never behind the walk over the original one *)
 Lemma sim_time_drop : forall j t loc dep loc' dep',
+  L loc -> Forall (fun a => L (a_loc a)) t ->
   Forall (fun a => a_job a = j -> 0 <= a_svc a) t ->
-  (forall m, dep' + dur loc' m <= dep + dur loc m) ->
+  (forall m, L m -> dep' + dur loc' m <= dep + dur loc m) ->
   sim_time dur loc dep t = true ->
   sim_time dur loc' dep' (drop_job j t) = true.
 Proof.
-  intros j t; induction t as [|a r IH]; intros loc dep loc' dep' Hsvc Hdom Hs; [reflexivity|].
+  intros j t; induction t as [|a r IH]; intros loc dep loc' dep' Hl Hlocs Hsvc Hdom Hs; [reflexivity|].
   cbn [sim_time] in Hs. apply andb_true_iff in Hs as [Ha Hr].
-  inversion Hsvc as [|? ? Hsa Hsr]; subst.
+  inversion Hsvc as [|? ? Hsa Hsr]; subst. inversion Hlocs as [|? ? Hla Hlr]; subst.
   cbn [drop_job filter]. destruct (a_job a =? j) eqn:Ej; cbn [negb].
   - (* a is dropped *)
-    apply (IH (a_loc a) (Z.max (dep + dur loc (a_loc a)) (a_tws a) + a_svc a)); [exact Hsr| |exact Hr].
-    intros m. specialize (Hdom m). pose proof (Htri loc (a_loc a) m). specialize (Hsa (proj1 (Z.eqb_eq _ _) Ej)). lia.
+    apply (IH (a_loc a) (Z.max (dep + dur loc (a_loc a)) (a_tws a) + a_svc a)); [exact Hla|exact Hlr|exact Hsr| |exact Hr].
+    intros m Hm. specialize (Hdom m Hm). pose proof (Htri loc (a_loc a) m Hl Hla Hm).
+    specialize (Hsa (proj1 (Z.eqb_eq _ _) Ej)). lia.
   - (* a is kept *)
     cbn [sim_time]. apply andb_true_iff; split.
-    + specialize (Hdom (a_loc a)). lia.
-    + apply (IH (a_loc a) (Z.max (dep + dur loc (a_loc a)) (a_tws a) + a_svc a)); [exact Hsr| |exact Hr].
-      intros m. specialize (Hdom (a_loc a)). lia.
+    + specialize (Hdom (a_loc a) Hla). lia.
+    + apply (IH (a_loc a) (Z.max (dep + dur loc (a_loc a)) (a_tws a) + a_svc a)); [exact Hla|exact Hlr|exact Hsr| |exact Hr].
+      intros m Hm. specialize (Hdom (a_loc a) Hla). lia.
 Qed.
 
 Lemma time_feasible_drop : forall j s r,
   a_job s <> j ->
+  Forall (fun a => L (a_loc a)) (s :: r) ->
   Forall (fun a => a_job a = j -> 0 <= a_svc a) r ->
   time_feasible dur (s :: r) = true ->
   time_feasible dur (drop_job j (s :: r)) = true.
 Proof.
-  intros j s r Hs Hsvc Hf. cbn [drop_job filter]. destruct (a_job s =? j) eqn:E; [apply Z.eqb_eq in E; congruence|].
+  intros j s r Hs Hlocs Hsvc Hf. cbn [drop_job filter]. destruct (a_job s =? j) eqn:E; [apply Z.eqb_eq in E; congruence|].
+  inversion Hlocs; subst.
   cbn [negb time_feasible] in *. apply (sim_time_drop j r (a_loc s) (a_dep s)); auto. intros; lia.
 Qed.
 End Time.
@@ -112,6 +120,21 @@ Proof.
 Qed.
 
 (* ---------------- both ---------------- *)
+Theorem removal_feasible_on : forall L dur v j s r,
+  triangle_on L dur ->
+  a_job s <> j ->
+  Forall (fun a => L (a_loc a)) (s :: r) ->
+  Forall (fun a => a_job a = j -> 0 <= a_svc a) r ->
+  balanced j 0 (s :: r) ->
+  feasible dur v (s :: r) = true ->
+  feasible dur v (drop_job j (s :: r)) = true.
+Proof.
+  intros L dur v j s r Ht Hs Hl Hsvc Hb Hf. unfold feasible in *. apply andb_true_iff in Hf as [H1 H2].
+  apply andb_true_iff; split.
+  - apply (time_feasible_drop L); assumption.
+  - apply load_feasible_drop; assumption.
+Qed.
+
 Theorem removal_feasible_metric : forall dur v j s r,
   triangle dur ->
   a_job s <> j ->
@@ -120,11 +143,13 @@ Theorem removal_feasible_metric : forall dur v j s r,
   feasible dur v (s :: r) = true ->
   feasible dur v (drop_job j (s :: r)) = true.
 Proof.
-  intros dur v j s r Ht Hs Hsvc Hb Hf. unfold feasible in *. apply andb_true_iff in Hf as [H1 H2].
-  apply andb_true_iff; split.
-  - apply time_feasible_drop; assumption.
-  - apply load_feasible_drop; assumption.
+  intros dur v j s r Ht Hs Hsvc Hb Hf. apply (removal_feasible_on (fun _ => True)); try assumption.
+  apply Forall_forall. intros; exact I.
 Qed.
+
+(* the locations of a problem *)
+Definition loc_of (P : pworld) (x : Z) : Prop := 0 <= x < pw_n P.
+Definition metric (P : pworld) : Prop := triangle_on (loc_of P) (pdur P).
 
 Lemma balanced_b_iff : forall j t o, balanced_b j o t = true <-> balanced j o t.
 Proof.
@@ -179,10 +204,10 @@ Qed.
 Lemma route_viol_nil : forall P r, route_viol P r = [] <-> RouteOK0 P r.
 Proof.
   intros P r. unfold route_viol, RouteOK0. destruct (find_vs P (r_actor r)) as [vs|] eqn:E.
-  - unfold route0_viol. rewrite !app_nil_iff, !flag_nil, report_nil. split.
-    + intros (H1 & H2 & H3 & H4 & H5 & H6). exists vs. split; [reflexivity|]. split; [exact H1|].
+  - unfold route0_viol. rewrite !app_nil_iff, !flag_nil, report_nil, andb_true_iff. split.
+    + intros ((H1 & H1') & H2 & H3 & H4 & H5 & H6). exists vs. split; [reflexivity|]. split; [exact H1|]. split; [exact H1'|].
       split; [unfold feasible; rewrite H2, H3; reflexivity|]. split; [exact H4|]. split; [exact H5|exact H6].
-    + intros (vs' & Evs & H1 & H2 & H3 & H4 & H5). inversion Evs; subst vs'.
+    + intros (vs' & Evs & H1 & H1' & H2 & H3 & H4 & H5). inversion Evs; subst vs'.
       unfold feasible in H2. apply andb_true_iff in H2 as [H2a H2b]. repeat split; assumption.
   - split; [discriminate|intros (vs & Evs & _); discriminate].
 Qed.
@@ -348,10 +373,10 @@ Qed.
 
 (* removing a job keeps a tour acceptable - time windows under the triangle inequality *)
 Lemma routeok_remove : forall P r j,
-  triangle (pdur P) -> RouteOK0 P r -> In j (job_ids r) ->
+  metric P -> RouteOK0 P r -> In j (job_ids r) ->
   RouteOK0 P (mkRoute (r_actor r) (remove_job_acts j (r_acts r))).
 Proof.
-  intros P r j Htri (vs & Evs & Hsh & Hf & Hm & Hd & Hc) Hj.
+  intros P r j Htri (vs & Evs & Hsh & Hlo & Hf & Hm & Hd & Hc) Hj.
   pose proof (job_ids_nonneg r j Hj) as Hj0.
   exists vs. cbn [r_actor]. split; [exact Evs|].
   assert (Ein : forall k, In k (job_ids (mkRoute (r_actor r) (remove_job_acts j (r_acts r)))) -> In k (job_ids r) /\ k <> j).
@@ -359,11 +384,14 @@ Proof.
   unfold demand_ok in Hd. apply andb_true_iff in Hd as [Hbal Hsvc]. rewrite forallb_forall in Hbal.
   rewrite tour_of_remove. fold (tour_of r).
   split; [apply shape_drop; assumption|].
+  split; [unfold locs_ok in *; apply forallb_filter; exact Hlo|].
   split.
-  - revert Hsh Hf Hsvc Hbal. destruct (tour_of r) as [|s rest]; intros Hsh Hf Hsvc Hbal; [cbn in Hsh; discriminate|].
-    apply removal_feasible_metric; try assumption.
+  - revert Hsh Hlo Hf Hsvc Hbal. destruct (tour_of r) as [|s rest]; intros Hsh Hlo Hf Hsvc Hbal; [cbn in Hsh; discriminate|].
+    apply (removal_feasible_on (loc_of P)); try assumption.
     + cbn [shape_ok] in Hsh. apply andb_true_iff in Hsh as [Hs _]. unfold is_start in Hs.
       repeat (apply andb_true_iff in Hs as [Hs ?]). apply Z.eqb_eq in Hs. lia.
+    + unfold locs_ok in Hlo. rewrite forallb_forall in Hlo. apply Forall_forall. intros x Hx. specialize (Hlo x Hx).
+      unfold loc_of. lia.
     + cbn [forallb] in Hsvc. apply andb_true_iff in Hsvc as [_ Hsvc]. rewrite forallb_forall in Hsvc.
       apply Forall_forall. intros a Ha _. specialize (Hsvc a Ha). lia.
     + apply balanced_b_iff. apply Hbal. exact Hj.
@@ -608,7 +636,7 @@ Proof.
 Qed.
 
 Lemma inv0_remove : forall P d a j tu d',
-  triangle (pdur P) -> Inv0 P d -> step P (PRemove a j tu) d = Some d' -> Inv0 P d'.
+  metric P -> Inv0 P d -> step P (PRemove a j tu) d = Some d' -> Inv0 P d'.
 Proof.
   intros P d a j tu d' Htri H Hs. cbn [step] in Hs.
   destruct (find_route d a) as [r|] eqn:Ef; [|discriminate].
@@ -873,12 +901,13 @@ Proof.
             (In k (job_ids (mkRoute a (insert_steps acts steps))) <-> In k (job_ids (mkRoute a acts)))).
   { intros acts k Hkj. rewrite !In_job_ids. cbn [r_acts]. split; intros [Hk0 (x & Hx & E)]; (split; [exact Hk0|]).
     - apply In_insert_steps in Hx as [Hx|Hx]; [exists x; auto|].
-      apply in_map_iff in Hx as (s & <- & Hs). specialize (Esteps s Hs). apply Z.eqb_eq in Esteps. congruence.
+      apply in_map_iff in Hx as (s & <- & Hst). specialize (Esteps s Hst). cbv beta in Esteps. apply Z.eqb_eq in Esteps.
+      exfalso. apply Hkj. rewrite <- E. exact Esteps.
     - exists x. split; [apply In_insert_steps; left; exact Hx|exact E]. }
   assert (Hlocks : forall acts l, In l (pw_locks P) ->
             filter (fun k => memz k (l_jobs l)) (job_ids (mkRoute a (insert_steps acts steps))) =
             filter (fun k => memz k (l_jobs l)) (job_ids (mkRoute a acts))).
-  { intros acts l Hl. apply filter_jobs_insert. intros s Hs. specialize (Esteps s Hs). apply Z.eqb_eq in Esteps.
+  { intros acts l Hl. apply filter_jobs_insert. intros s Hst. specialize (Esteps s Hst). apply Z.eqb_eq in Esteps.
     rewrite Esteps. apply memz_false. apply Hnl. exact Hl. }
   assert (Hgrp : forall acts g, In g (groups_of P) -> has_group P g (mkRoute a (insert_steps acts steps)) = true ->
             has_group P g (mkRoute a acts) = true \/ forall x, In x (d_routes d) -> r_actor x <> a -> has_group P g x = false).
@@ -948,10 +977,10 @@ Proof.
       intros b Hb. rewrite !in_app_iff in Hb. cbn [In] in Hb.
       destruct Hb as [[Hb|[<-|[]]]|Hb].
       * apply Hkn. apply in_app_iff. left. exact Hb.
-      * unfold actor_known. rewrite Evs. reflexivity.
+      * unfold actor_known, r'. cbn [r_actor]. rewrite Evs. reflexivity.
       * apply In_removez in Hb. apply Hkn. apply in_app_iff. right. tauto.
     + intros v Hv. pose proof (inv_registry P d H v Hv) as Hr. unfold used in *. cbn [d_routes d_avail].
-      rewrite map_app, in_app_iff, In_removez. cbn [map r_actor In].
+      rewrite map_app, in_app_iff, In_removez. unfold r'. cbn [map r_actor In].
       destruct (Z.eq_dec (vs_id v) a) as [E|E]; [rewrite E in *; tauto|]. intuition congruence.
     + intros x Hx. apply in_app_iff in Hx as [Hx|[<-|[]]]; [apply (inv_routes P d H); exact Hx|exact Eok].
     + intros g Hg. pose proof (inv_groups P d H g Hg) as Hgo. unfold group_ok in *. cbn [d_routes].
@@ -966,4 +995,157 @@ Proof.
     + intros l Hl. pose proof (inv_locks P d H l Hl) as Hlo. unfold lock_ok in *. cbn [d_routes d_locked].
       apply andb_true_iff in Hlo as [Hl1 Hl2]. apply andb_true_iff. split; [exact Hl1|].
       rewrite existsb_app. rewrite Hl2. reflexivity.
+Qed.
+
+(* ================= part 4: every primitive, every history ================= *)
+Theorem inv0_step : forall P p d d',
+  metric P -> locks_nonempty P -> Inv0 P d -> step P p d = Some d' -> Inv0 P d'.
+Proof.
+  intros P p d d' Ht Hl H Hs. destruct p.
+  - eapply inv0_remove; eauto.
+  - eapply inv0_dropempty; eauto.
+  - eapply inv0_insert; eauto.
+  - eapply inv0_fail; eauto.
+  - eapply inv0_finalize; eauto.
+  - eapply inv0_departure; eauto.
+Qed.
+
+Theorem inv0_history : forall P w d d',
+  metric P -> locks_nonempty P -> Inv0 P d -> run P w d = Some d' -> Inv0 P d'.
+Proof.
+  intros P w; induction w as [|p w IH]; intros d d' Ht Hl H Hr; cbn [run] in Hr.
+  - inversion Hr; subst; exact H.
+  - destruct (step P p d) as [d1|] eqn:Es; [|discriminate].
+    apply (IH d1 d'); auto. apply (inv0_step P p d d1); auto.
+Qed.
+
+(* "no tour without jobs": established by remove_empty_routes, kept by everything that does not remove jobs *)
+Lemma noempty_dropempty : forall P d d', step P PDropEmpty d = Some d' -> NoEmptyRoutes d'.
+Proof.
+  intros P d d' H. cbn [step] in H. inversion H; subst d'. intros r Hr. cbn [d_routes] in Hr.
+  apply filter_In in Hr as [_ Hr]. unfold nonempty in Hr. destruct (job_ids r); [discriminate|intros E; discriminate].
+Qed.
+
+Lemma In_not_nil : forall (l : list Z) x, In x l -> l <> [].
+Proof. intros l x H E. rewrite E in H. destruct H. Qed.
+
+Lemma noempty_step : forall P p d d',
+  keeps_tours_served p = true -> NoEmptyRoutes d -> step P p d = Some d' -> NoEmptyRoutes d'.
+Proof.
+  intros P p d d' Hk Hne Hs. destruct p as [a j tu| |a j steps|j| |a dep]; try discriminate; cbn [step] in Hs.
+  - inversion Hs; subst d'. intros r Hr. cbn [d_routes] in Hr. apply filter_In in Hr as [Hr _]. apply Hne. exact Hr.
+  - match type of Hs with (if ?c then _ else _) = _ => destruct c; [|discriminate] end.
+    destruct (find_route d a) as [r|] eqn:Ef.
+    + match type of Hs with (if ?c then _ else _) = _ => destruct c eqn:Eok; [|discriminate] end.
+      inversion Hs; subst d'. apply andb_true_iff in Eok as [_ Es]. apply serves_In in Es.
+      intros x Hx. cbn [d_routes] in Hx. apply replace_In in Hx as [->|[Hx _]]; [|apply Hne; exact Hx].
+      apply (In_not_nil _ j). exact Es.
+    + destruct (find_vs P a) as [vs|]; [|discriminate].
+      match type of Hs with (if ?c then _ else _) = _ => destruct c eqn:Eok; [|discriminate] end.
+      inversion Hs; subst d'. apply andb_true_iff in Eok as [_ Es]. apply serves_In in Es.
+      intros x Hx. cbn [d_routes] in Hx. apply in_app_iff in Hx as [Hx|[<-|[]]]; [apply Hne; exact Hx|].
+      apply (In_not_nil _ j). exact Es.
+  - match type of Hs with (if ?c then _ else _) = _ => destruct c; [|discriminate] end.
+    inversion Hs; subst d'. exact Hne.
+  - inversion Hs; subst d'. exact Hne.
+  - destruct (find_route d a) as [r|] eqn:Ef; [|discriminate].
+    match type of Hs with (if ?c then _ else _) = _ => destruct c; [|discriminate] end.
+    inversion Hs; subst d'. destruct (find_route_In _ _ _ Ef) as [Hin _].
+    intros x Hx. cbn [d_routes] in Hx. apply replace_In in Hx as [->|[Hx _]]; [|apply Hne; exact Hx].
+    rewrite job_ids_departure. apply (Hne r Hin).
+Qed.
+
+Lemma run_app : forall P w1 w2 d,
+  run P (w1 ++ w2) d = match run P w1 d with Some d1 => run P w2 d1 | None => None end.
+Proof.
+  intros P w1; induction w1 as [|p w1 IH]; intros w2 d; cbn [app run]; [reflexivity|].
+  destruct (step P p d); [apply IH|reflexivity].
+Qed.
+
+Lemma noempty_run : forall P w d d',
+  forallb keeps_tours_served w = true -> NoEmptyRoutes d -> run P w d = Some d' -> NoEmptyRoutes d'.
+Proof.
+  intros P w; induction w as [|p w IH]; intros d d' Hk Hne Hr; cbn [run] in Hr.
+  - inversion Hr; subst; exact Hne.
+  - cbn [forallb] in Hk. apply andb_true_iff in Hk as [Hp Hw].
+    destruct (step P p d) as [d1|] eqn:Es; [|discriminate].
+    apply (IH d1 d' Hw); [|exact Hr]. apply (noempty_step P p d d1); assumption.
+Qed.
+
+(* an operator: any primitives, then restore (remove_empty_routes), then primitives that do not remove jobs *)
+Definition op_word := (list prim * list prim)%type.
+Definition word_of (o : op_word) : list prim := fst o ++ PDropEmpty :: snd o.
+Definition op_ok (o : op_word) : bool := forallb keeps_tours_served (snd o).
+Fixpoint run_ops (P : pworld) (os : list op_word) (d : dump) : option dump :=
+  match os with
+  | [] => Some d
+  | o :: r => match run P (word_of o) d with Some d1 => run_ops P r d1 | None => None end
+  end.
+
+Theorem inv_operator : forall P o d d',
+  metric P -> locks_nonempty P -> Inv0 P d -> op_ok o = true ->
+  run P (word_of o) d = Some d' -> Inv P d'.
+Proof.
+  intros P [w1 w2] d d' Ht Hl H Hok Hr. split; [apply (inv0_history P _ d d' Ht Hl H Hr)|].
+  unfold word_of in Hr. cbn [fst snd] in Hr. rewrite run_app in Hr.
+  destruct (run P w1 d) as [d1|]; [|discriminate]. cbn [run] in Hr.
+  destruct (step P PDropEmpty d1) as [d2|] eqn:Es; [|discriminate].
+  apply (noempty_run P w2 d2 d'); [exact Hok|apply (noempty_dropempty P d1); exact Es|exact Hr].
+Qed.
+
+Theorem inv_history : forall P os d d',
+  metric P -> locks_nonempty P -> Inv P d -> forallb op_ok os = true ->
+  run_ops P os d = Some d' -> Inv P d'.
+Proof.
+  intros P os; induction os as [|o os IH]; intros d d' Ht Hl H Hok Hr; cbn [run_ops] in Hr.
+  - inversion Hr; subst; exact H.
+  - cbn [forallb] in Hok. apply andb_true_iff in Hok as [Ho Hos].
+    destruct (run P (word_of o) d) as [d1|] eqn:Er; [|discriminate].
+    apply (IH d1 d' Ht Hl); [|exact Hos|exact Hr].
+    apply (inv_operator P o d d1); auto. destruct H as [H0 _]. exact H0.
+Qed.
+
+(* ================= part 5: merge of decomposed parts (DecomposeSearch::merge_best) ================= *)
+Theorem inv0_merge : forall P a b,
+  (forall s, In s (pw_jobs P) -> (homes a (j_id s) + homes b (j_id s) = 1)%nat) ->
+  (forall j, In j (mentioned a) \/ In j (mentioned b) -> known P j = true) ->
+  NoDup (d_required a ++ d_required b) -> NoDup (d_ignored a ++ d_ignored b) -> NoDup (d_unassigned a ++ d_unassigned b) ->
+  NoDup (used a ++ used b) -> (forall x, In x (used a ++ used b) -> actor_known P x = true) ->
+  (forall r, In r (d_routes a ++ d_routes b) -> RouteOK0 P r) ->
+  (forall g, In g (groups_of P) ->
+     (length (filter (has_group P g) (d_routes a)) + length (filter (has_group P g) (d_routes b)) <= 1)%nat) ->
+  (forall l, In l (pw_locks P) -> lock_ok a l = true \/ lock_ok b l = true) ->
+  Inv0 P (merge P a b).
+Proof.
+  intros P a b Hh Hk Hr Hi Hu Hnd Hak Hro Hg Hl.
+  constructor; unfold merge; cbn [d_routes d_required d_ignored d_unassigned d_locked d_avail].
+  - intros s Hs. specialize (Hh s Hs). unfold homes in *. cbn [d_routes d_required d_ignored d_unassigned].
+    rewrite filter_app, app_length.
+    assert (Eb : forall k l1 l2, NoDup (l1 ++ l2) -> b2n (memz k (l1 ++ l2)) = (b2n (memz k l1) + b2n (memz k l2))%nat).
+    { intros k l1 l2 Hn. destruct (memz k l1) eqn:E1, (memz k l2) eqn:E2; cbn [b2n].
+      - exfalso. apply memz_In in E1. apply memz_In in E2. clear -Hn E1 E2.
+        induction l1 as [|x l1 IH]; [destruct E1|]. cbn in Hn. inversion Hn; subst.
+        destruct E1 as [->|E1]; [apply H1; apply in_app_iff; right; exact E2|apply IH; assumption].
+      - apply b2n_memz_In. apply in_app_iff. left. apply memz_In. exact E1.
+      - apply b2n_memz_In. apply in_app_iff. right. apply memz_In. exact E2.
+      - apply b2n_memz_notin. rewrite in_app_iff. intros [Hc|Hc]; apply memz_In in Hc; congruence. }
+    rewrite (Eb _ _ _ Hr), (Eb _ _ _ Hi), (Eb _ _ _ Hu). lia.
+  - intros j Hj. apply Hk. apply mentioned_iff in Hj. cbn [d_routes d_required d_ignored d_unassigned d_locked] in Hj.
+    rewrite !mentioned_iff. rewrite !in_app_iff in Hj.
+    destruct Hj as [(x & Hx & Hjx)|Hj]; [apply in_app_iff in Hx as [Hx|Hx]; [left|right]; left; exists x; auto|tauto].
+  - auto.
+  - unfold used. cbn [d_routes d_avail]. rewrite map_app. split; [exact Hnd|].
+    intros x Hx. apply in_app_iff in Hx as [Hx|Hx]; [apply Hak; exact Hx|].
+    apply filter_In in Hx as [Hx _]. apply in_map_iff in Hx as (v & <- & Hv). unfold actor_known.
+    destruct (find_vs P (vs_id v)) eqn:E; [reflexivity|]. unfold find_vs in E.
+    apply (find_none _ _ E) in Hv. rewrite Z.eqb_refl in Hv. discriminate.
+  - intros v Hv. unfold used. cbn [d_routes d_avail]. rewrite map_app, filter_In, negb_true_iff, memz_false. split.
+    + tauto.
+    + intros Hn. split; [apply in_map; exact Hv|exact Hn].
+  - exact Hro.
+  - intros g Hgr. unfold group_ok. cbn [d_routes]. rewrite filter_app, app_length. apply Nat.leb_le. apply Hg. exact Hgr.
+  - intros l Hll. unfold lock_ok. cbn [d_routes d_locked]. destruct (Hl l Hll) as [Hlo|Hlo]; unfold lock_ok in Hlo;
+      apply andb_true_iff in Hlo as [H1 H2]; apply andb_true_iff; (split;
+        [rewrite forallb_forall in *; intros x Hx; specialize (H1 x Hx); apply memz_In; apply memz_In in H1; apply in_app_iff; tauto
+        |rewrite existsb_app, H2; auto using orb_true_r]).
 Qed.
